@@ -21,12 +21,15 @@ type mbucket struct {
 	ent map[string]*ment
 	seq uint64
 	dup bool // only set when reading the real database: a key was listed twice
+	// trunc: only set when reading the real database: nesting went deeper than
+	// anything the harness writes and reading stopped here
+	trunc bool
 }
 
 func newBucket() *mbucket { return &mbucket{ent: map[string]*ment{}} }
 
 func (b *mbucket) clone() *mbucket {
-	c := &mbucket{ent: make(map[string]*ment, len(b.ent)), seq: b.seq, dup: b.dup}
+	c := &mbucket{ent: make(map[string]*ment, len(b.ent)), seq: b.seq, dup: b.dup, trunc: b.trunc}
 	for k, e := range b.ent {
 		if e.sub != nil {
 			c.ent[k] = &ment{sub: e.sub.clone()}
@@ -70,6 +73,9 @@ func (b *mbucket) render(sb *strings.Builder) {
 	sb.WriteString(strconv.FormatUint(b.seq, 10))
 	if b.dup {
 		sb.WriteString(" !dup")
+	}
+	if b.trunc {
+		sb.WriteString(" !nesting-deeper-than-written")
 	}
 	for _, k := range b.keys() {
 		e := b.ent[k]
@@ -143,7 +149,7 @@ func diffPaths(a, b *mbucket, prefix string, out *[]string) {
 		}
 		return
 	}
-	differs := a.seq != b.seq || len(a.ent) != len(b.ent) || a.dup != b.dup
+	differs := a.seq != b.seq || len(a.ent) != len(b.ent) || a.dup != b.dup || a.trunc != b.trunc
 	for k, ea := range a.ent {
 		eb := b.ent[k]
 		if eb == nil || (ea.sub != nil) != (eb.sub != nil) || (ea.sub == nil && ea.val != eb.val) {
